@@ -11,6 +11,7 @@
 // output: "C <id>" before each case (flushed), then per combination
 //   "R <id> <t> <k> <c> <hash> <entries> <maxabsdiff %a> <maxabsref %a> <nonfinite>"
 //   and up to three lines "X <id> <t> <k> <c> <index> <ref %a> <val %a>" for differing entries,
+//   "V <id> <n> <n hex doubles>" once per case for small mds / mdsl / cli results (row major),
 //   then "E <id>".
 #include <cmath>
 #include <cstdint>
@@ -243,7 +244,18 @@ int main()
             omp_set_num_threads(c.t);
             omp_set_schedule(c.k == 1 ? omp_sched_static : c.k == 2 ? omp_sched_dynamic : omp_sched_guided, c.c);
             std::vector<double> r = run_region(region, D, k, d, L, seed);
-            if (ci == 0) ref = r;
+            if (ci == 0)
+            {
+                ref = r;
+                // small symmetric-fill results are printed in full: the check compares them with the closed form
+                // f(min(a,b), max(a,b)) of theorem c15_sym_fill_all_schedules
+                if ((region == "mds" || region == "mdsl" || region == "cli") && r.size() <= 1100)
+                {
+                    printf("V %ld %zu", id, r.size());
+                    for (double v : r) printf(" %a", v);
+                    printf("\n");
+                }
+            }
             double maxd = 0, maxr = 0;
             long nonfinite = 0;
             std::vector<size_t> bad;
